@@ -129,7 +129,7 @@ func splitIntoChunks(txt string, numberOfBatches int) []string {
 	pointer := 0
 	for i := 0; i < numberOfBatches; i++ {
 		nextPointer := pointer + batchByteSize
-		for nextPointer < len(txt) && !utf8.RuneStart(txt[nextPointer]) {
+		for nextPointer < len(txt) && (!utf8.RuneStart(txt[nextPointer]) || isInBetweenCRLF(txt, nextPointer)) {
 			nextPointer++
 		}
 		if nextPointer > len(txt) {
@@ -141,6 +141,13 @@ func splitIntoChunks(txt string, numberOfBatches int) []string {
 		pointer = nextPointer
 	}
 	return batches
+}
+
+// isInBetweenCRLF checks whether the position is right in between a carriage return and
+// the subsequent linefeed. A `\r\n` line ending must not be torn apart: the chunk would
+// end with a line that appears to contain a lone `\r`, i.e. that doesn’t look blank anymore.
+func isInBetweenCRLF(txt string, position int) bool {
+	return position > 0 && txt[position] == '\n' && txt[position-1] == '\r'
 }
 
 func countBytes(b txt.Block) int {
